@@ -394,10 +394,12 @@ def run_gen(ctx, spec):
     ctx.count('records_resliced_in_situ', mon.records)
 
 
-def derive(rng, name, ops):
+def derive(rng, name, ops, allow_layers=True):
     geo = geos.load_shipped(name)
     for _ in range(rng.randint(1, 3)):
         r = rng.random()
+        if not allow_layers and 0.75 <= r < 0.9:
+            r = 0.6
         if r < 0.35:
             cols = rng.sample([c for c in geo.columnlist if c.num_nodes in (3, 4)], min(geo.num_columns, rng.randint(1, 6)))
             ops.append(['refine', [c.name for c in cols]])
@@ -415,6 +417,13 @@ def derive(rng, name, ops):
             lays = rng.sample(geo.layerlist[1:], min(2, geo.num_layers - 1))
             ops.append(['refine_layers', [l.name for l in lays]])
             geo.refine_layers(lays, factor=rng.randint(2, 3))
+            # thirds of a layer are not two-decimal numbers, and the regenerated elevations carry rounding noise (a bottom
+            # of -1.4e-14 under a column surface of 0.0 is a block 1.4e-14 thick in memory and none in the file): a
+            # column surface within the file's rounding of a new layer boundary puts the geometry outside what two
+            # decimals can carry - derived again without layer refinement
+            if any(col.surface is not None and any(0.0 < abs(col.surface - lay.bottom) < 0.006 for lay in geo.layerlist) for col in geo.columnlist):
+                del ops[:]
+                return derive(rng, name, ops, allow_layers=False)
         else:
             cols = rng.sample(geo.columnlist, max(3, geo.num_columns // 2))
             ops.append(['reduce', len(cols)])
